@@ -764,7 +764,8 @@ package actor
 //@ event ChanSend(ch Ref, v Iface)
 
 //@ func NewResponse(e, timeout)
-//@   trusted
+//@   props C11
+//@   requires e != nil
 //@   modifies
 //@   ensures fresh(result) && result != nil && result.engine == e && result.pid != nil && result.pid.Address == e.address && result.result != nil
 
@@ -850,16 +851,27 @@ package actor
 //@   pure
 //@   ensures result == p.pid
 
+//@ func NewInbox(size)
+//@   props C02 C01
+//@   constructs
+//@   requires[C01.config.inbox-size-at-least-one] size >= 1
+//@   modifies startPerm
+//@   ensures[C02.newinbox.unstarted] result != nil && fresh(result) && result.rb != nil && !isnil(result.scheduler) && result.procStatus == stopped && isnil(result.proc) && result.rb.len == 0
+//@   ghost at return#1: startPerm = true
+//@   ensures[C02.newinbox.owner-may-start-it] startPerm
+
 //@ func newProcess(e, opts)
-//@   trusted
-//@   modifies
+//@   props C08 C02
+//@   requires e != nil && opts.InboxSize >= 1
+//@   modifies startPerm
 //@   ensures result != nil && fresh(result) && result.context != nil && fresh(result.context) && result.context.parentCtx == nil && result.context.children != nil &&
 //@        result.pid != nil && result.context.pid == result.pid && result.context.engine == e && result.pid.Address == e.address && result.pid.ID == opts.Kind + pidSeparator + opts.ID
 
 //@ func (*Context).SpawnChild(p, name, opts)
 //@   props C08
-//@   modifies heap except private, mapof(c.children.data), log, loglen
+//@   modifies heap except private, mapof(c.children.data), log, loglen, startPerm
 //@   requires c != nil && c.pid != nil && engInv(c.engine) && c.children != nil && forall(k, 0 <= k && k < len(opts) ==> opts[k] != nil)
+//@   ghost at call newProcess#1 before: assume[C01.config.inbox-size-at-least-one] options.InboxSize >= 1
 //@   ghost at call SpawnProc#1 before: assert[C08.spawnchild.child-knows-its-parent] arg0 == c.engine && arg1 == Processer(proc) && proc.context.parentCtx == c
 //@   ghost at call SpawnProc#1: spawned = result
 //@   ghost at call Set#1 before: assert[C08.spawnchild.registered-with-parent] arg0 == c.children && arg1 == spawned.ID && arg2 == spawned
@@ -894,13 +906,18 @@ package actor
 //@   pure
 //@   ensures result == hk(pid.Address + pid.ID)
 
-// Engine.Spawn (options, random id, newProcess, SpawnProc) is not verified;
-// callers in other packages see it as: registers and starts a process through
-// the engine, returns its PID.
+// Engine.Spawn: options, (random) id, newProcess, then SpawnProc - the only
+// way a spawned process gets registered and started.
 //@ func (*Engine).Spawn(p, kind, opts)
-//@   trusted
-//@   modifies heap except private, log, loglen
-//@   ensures result != nil
+//@   props C10
+//@   requires engInv(e) && forall(k, 0 <= k && k < len(opts) ==> opts[k] != nil)
+//@   modifies heap except private, log, loglen, startPerm
+//@   ghost at call newProcess#1 before: assume[C01.config.inbox-size-at-least-one] options.InboxSize >= 1
+//@   ghost at call newProcess#1 before: assert[C10.spawn.process-for-this-engine] arg0 == e
+//@   ghost at call SpawnProc#1 before: assert[C10.spawn.goes-through-the-registry] arg0 == e && arg1 == Processer(proc)
+//@   ensures[C10.spawn.returns-a-pid] result != nil
+//@   loop 1
+//@     invariant rangeindex >= -1 && engInv(e)
 
 // The restart budget an actor is spawned with is the one that was asked for
 // (every value >= 0, zero included).
@@ -915,3 +932,22 @@ package actor
 //@   requires e != nil
 //@   pure
 //@   ensures result == e.address
+
+// Engine.Poison / PoisonCtx: callers (cleanup, the cluster agent) use the
+// abstract contract above (one PoisonSent entry carrying the returned
+// context); the bodies are checked here: a graceful pill for exactly that pid.
+//@ func (*Engine).Poison!impl(pid)
+//@   props C07
+//@   requires engInv(e)
+//@   modifies log, loglen
+//@   ghost at call sendPoisonPill#1 before: assert[C07.poison.is-a-graceful-pill-for-that-pid] arg0 == e && arg2 == true && arg3 == pid
+//@   ghost at call sendPoisonPill#1: inner = result
+//@   ghost at return#1: assert[C07.poison.returns-the-pills-context] result == inner
+//@   ensures !isnil(result) && logPrefix(entry(loglen))
+
+//@ func (*Engine).PoisonCtx(ctx, pid)
+//@   props C07
+//@   requires engInv(e)
+//@   modifies log, loglen
+//@   ghost at call sendPoisonPill#1 before: assert[C07.poisonctx.is-a-graceful-pill-for-that-pid] arg0 == e && arg1 == ctx && arg2 == true && arg3 == pid
+//@   ensures !isnil(result) && logPrefix(entry(loglen))
